@@ -68,7 +68,9 @@ def _merge_list(dst, src, path):
 class Monitor:
     """Protocol monitor fed one payload at a time; also assembles the data."""
 
-    def __init__(self, labels_parent=None, nesting_by_label=True):
+    def __init__(self, labels_parent=None, lenient=False):
+        self.lenient = lenient  # record protocol errors and keep assembling (C04)
+        self.protocol_errors = []
         self.seen_ids = set()
         self.pending = {}  # id -> pending entry
         self.done = {}  # id -> errors or None
@@ -86,11 +88,18 @@ class Monitor:
         self.features = set()
 
     # -- rule helpers ---------------------------------------------------------------------
+    def _err(self, rule, what, detail=None):
+        pe = ProtocolError(rule, what, detail)
+        if not self.lenient:
+            raise pe
+        self.protocol_errors.append(pe)
+
     def _announce(self, entries):
         for pe in entries:
             i = pe["id"]
             if i in self.seen_ids:
-                raise ProtocolError(1, "id_reused_or_announced_twice", {"id": i})
+                self._err(1, "id_reused_or_announced_twice", {"id": i})
+                continue
             self.seen_ids.add(i)
             self.pending[i] = pe
 
@@ -116,8 +125,9 @@ class Monitor:
                     continue
                 yp = list(y["path"])
                 if xp[: len(yp)] == yp:
-                    raise ProtocolError(5, "nested_announced_while_parent_pending",
-                                        {"child": x, "parent": y})
+                    self._err(5, "nested_announced_while_parent_pending",
+                              {"child": x, "parent": y})
+                    return
 
     def on_initial(self, payload):
         self.n_payloads += 1
@@ -125,12 +135,12 @@ class Monitor:
         for e in payload.get("errors") or ():
             self.errors.append((e, "initial"))
         if "hasNext" not in payload:
-            raise ProtocolError(7, "initial_without_hasNext")
+            self._err(7, "initial_without_hasNext")
         self._announce(payload.get("pending") or ())
         self._check_nesting()
-        if not payload["hasNext"]:
+        if not payload.get("hasNext"):
             if self.pending:
-                raise ProtocolError(4, "hasNext_false_with_pending", {"pending": list(self.pending)})
+                self._err(4, "hasNext_false_with_pending", {"pending": list(self.pending)})
             self.ended = True
         elif not self.pending:
             # hasNext true with nothing pending is legal only transiently; nothing to check
@@ -138,20 +148,24 @@ class Monitor:
 
     def on_subsequent(self, payload):
         if self.ended:
-            raise ProtocolError(7, "payload_after_hasNext_false")
+            self._err(7, "payload_after_hasNext_false")
         self.n_payloads += 1
         self._announce(payload.get("pending") or ())
         for inc in payload.get("incremental") or ():
             i = inc["id"]
             pe = self.pending.get(i)
             if pe is None:
-                raise ProtocolError(2, "incremental_for_unknown_or_completed_id", {"id": i})
+                what = ("incremental_for_completed_id" if i in self.done
+                        else "incremental_for_never_announced_id")
+                self._err(2, what, {"id": i})
+                continue
             base = list(pe["path"])
             if "items" in inc:
                 self.stream_ids.add(i)
                 ok, target = _walk(self.data, base)
                 if not ok or not isinstance(target, list):
-                    raise ProtocolError(3, "stream_target_not_a_list", {"id": i, "path": base})
+                    self._err(3, "stream_target_not_a_list", {"id": i, "path": base})
+                    continue
                 if inc.get("subPath"):
                     self.features.add("stream_subpath")
                 target.extend(copy.deepcopy(inc["items"]))
@@ -163,10 +177,11 @@ class Monitor:
                     self.features.add("subpath_nonempty")
                 ok, target = _walk(self.data, base + sub)
                 if not ok or not isinstance(target, dict):
-                    raise ProtocolError(3, "defer_target_not_an_object",
-                                        {"id": i, "path": base + sub})
+                    self._err(3, "defer_target_not_an_object", {"id": i, "path": base + sub})
+                    continue
                 if not isinstance(inc.get("data"), dict):
-                    raise ProtocolError(3, "defer_data_not_an_object", {"id": i})
+                    self._err(3, "defer_data_not_an_object", {"id": i})
+                    continue
                 conf = deep_merge(target, inc["data"], tuple(base + sub))
                 if conf:
                     self.merge_conflicts.append(conf[0])
@@ -177,7 +192,11 @@ class Monitor:
             i = c["id"]
             pe = self.pending.pop(i, None)
             if pe is None:
-                raise ProtocolError(4, "completed_for_unknown_or_completed_id", {"id": i})
+                what = ("completed_twice" if i in self.done else "completed_for_never_announced_id")
+                if c.get("errors"):
+                    what += "_with_errors"
+                self._err(4, what, {"id": i, "entry": c})
+                continue
             errs = c.get("errors")
             self.done[i] = errs
             if errs:
@@ -187,10 +206,10 @@ class Monitor:
                     self.errors.append((e, "completed:" + i))
         self._check_nesting()
         if "hasNext" not in payload:
-            raise ProtocolError(7, "payload_without_hasNext")
-        if not payload["hasNext"]:
+            self._err(7, "payload_without_hasNext")
+        if not payload.get("hasNext"):
             if self.pending:
-                raise ProtocolError(4, "hasNext_false_with_pending", {"pending": list(self.pending)})
+                self._err(4, "hasNext_false_with_pending", {"pending": list(self.pending)})
             self.ended = True
         else:
             if not (payload.get("pending") or payload.get("incremental") or payload.get("completed")):
@@ -199,8 +218,7 @@ class Monitor:
     def on_end(self, consumer_stopped=False):
         """StopAsyncIteration reached."""
         if not self.ended and not consumer_stopped:
-            raise ProtocolError(7, "stream_ended_without_hasNext_false",
-                                {"pending": list(self.pending)})
+            self._err(7, "stream_ended_without_hasNext_false", {"pending": list(self.pending)})
 
 
 # --- C04 comparison -----------------------------------------------------------------------------
